@@ -176,7 +176,7 @@ class C14:
     level = 'fault_enumeration'
     rule = ('complete enumeration: command shape {-E,-S,-c,link} x {-o, none} x 1..3 inputs of 6 kinds (good .c, syntax-error .c, codegen-error .c, missing .c, good .s, bad .s) x one '
             'fault: none, k-th cc1 / k-th as / ld failing by exit status or by signal (k up to inputs+1), or an output path in a missing directory; each run checked against a model of the '
-            'driver contract (exit status; outputs exist exactly for units whose pipeline completed; outputs of failed units never created or rewritten; every mkstemp file gone). Plus '
+            'driver contract (exit status; outputs exist exactly for units whose pipeline completed; outputs of failed units never created or rewritten; every mkstemp file gone; on success no file appears that was not requested and the executable defines the symbols of every input). Plus '
             'Hypothesis-drawn concurrent bundles of 2-12 drivers in one directory, each compared with its solo run. non-trivial = pipeline has >= 2 subprocesses and the fault is not in the '
             'first one, or a concurrent bundle; distinct by (shape, inputs, fault).')
     assumptions = ['interleavings inside the kernel are not controlled for the concurrent bundles', 'killing the driver itself is outside the statement',
@@ -184,7 +184,7 @@ class C14:
     exhaustive = True
 
     def budget(self, tier):
-        return 48 if tier == 'quick' else 2000
+        return 48 if tier == 'quick' else 600
 
     def prepare(self, tree, tier):
         top = os.path.dirname(tree.dir)
